@@ -17,7 +17,7 @@ BOUNDED_PARTS = {
     "C09": ("dynamics", "placement", "frame", "objective", "pvals"),
     "C10": ("init",),
     "C11": ("dynamics", "placement", "frame", "grid", "objective", "freetime", "init"),
-    "C14": ("dynamics", "placement", "frame", "objective", "scaling"),
+    "C14": ("dynamics", "placement", "frame", "objective", "scaling", "init"),
     "C13": ("dynamics", "placement", "frame", "objective", "pvals", "init"),
 }
 
@@ -53,6 +53,11 @@ def tasks_for(prop, tier):
     out = []
     if prop == "C05":
         out += c05_extra(tier)
+    if prop in ("C04", "C09"):
+        # the same clauses for stages created from a template (two clones of generated specifications)
+        from . import c12
+        sel = (lambda kw: bool(kw["constraints"])) if prop == "C04" else (lambda kw: bool(kw["params"]) or kw["T"][0] == "param" or kw["t0"][0] == "param")
+        out += c12.generated_clone_tasks(tier, prop, select=sel)
     if prop == "C02":
         from . import c03
         out.append(Task("C02/collocation-polynomial-tables", lambda: c03.native_collocation(only=("nodes-are", "C-is", "D-is", "tables-independent")), kind="enumerated", replay=dict(harness="colloc_probe"),
